@@ -24,3 +24,51 @@ RULE = PRIV_RULE
 def nontrivial(case, model_out):
     segs = case.segs.split(";")
     return int(segs[0].split()[0], 16) >= 2 or case.fid == "602"
+
+
+# ---------------------------------------------------------------------------------------------------------
+# Implementation-side predicate for the clause "every dummy ... output slot is the all-zero slot": evaluated on
+# what the REAL wrapper circuit output. One class of inputs violates it on the unchanged code (recorded in
+# known_findings.json, key dummy-slot-carries-zero-account-total): a dummy slot that is the first occurrence of the
+# all-zero account carries the total real slots pay to the all-zero account. Any other violation is reported.
+from lib import vlib
+from lib.runner import Violation
+
+
+def extra_checks(tier, seed, consts):
+    text = vlib.run_harness("wrappers", ["priv"], seed=seed, tier=tier)
+    cases, _ = vlib.parse_cases(text)
+    violations, known_seen, evaluated, samples = [], 0, 0, []
+    for c in cases:
+        if c.fid != "601" or not c.out.startswith("1 "):
+            continue
+        segs = c.segs.split(";")
+        n = int(segs[0].split()[0], 16)
+        leaves = [[int(t, 16) for t in s.split()] for s in segs[1:1 + n]]
+        out = [int(t, 16) for t in c.out.split()[1:]]
+        if len(out) != 21 * n + 8:
+            continue
+        evaluated += 1
+        real = [l for l in leaves if l[16:20] != [0, 0, 0, 0]]
+        zero_total = sum(l[1] for l in real if l[8:12] == [0, 0, 0, 0]) + sum(l[2] for l in real if l[12:16] == [0, 0, 0, 0])
+        for i, l in enumerate(leaves):
+            if l[16:20] != [0, 0, 0, 0]:
+                continue
+            for k in (2 * i, 2 * i + 1):
+                slot = out[8 + 5 * k: 13 + 5 * k]
+                if slot == [0, 0, 0, 0, 0]:
+                    continue
+                if slot[1:] == [0, 0, 0, 0] and slot[0] == zero_total and zero_total > 0:
+                    known_seen += 1
+                    if known_seen == 1:
+                        samples.append({"known_finding_instance": c.to_json(), "dummy_slot": k, "slot": slot})
+                        violations.append(Violation("dummy slot %d of the output is %s, not the all-zero slot (it carries the total real slots pay to the all-zero account)" % (k, slot),
+                                                    case=c, found_input=True, detail="dummy-slot-carries-zero-account-total"))
+                else:
+                    violations.append(Violation("dummy slot %d of the output is %s, not the all-zero slot" % (k, slot), case=c, found_input=True))
+    return {"evaluations": evaluated, "violations": violations[:4], "samples": samples,
+            "evidence": {"c09_dummy_slot_predicate_evaluated_on_impl_outputs": evaluated, "known_finding_instances_seen": known_seen}}
+
+
+def finding_key(v):
+    return v.detail if isinstance(v.detail, str) and v.detail == "dummy-slot-carries-zero-account-total" else None
